@@ -27,7 +27,7 @@ def _drive_one(scn: Dict[str, Any]) -> Dict[str, Any]:
 
 def const_text(sw: Dict[str, bool], max_ticks: int, max_env: int, cfgs: str = "Cfgs <- JsonCfgs") -> str:
     return (f"CONSTANTS\n  KillChecksAlive = {mbt.b(sw['KillChecksAlive'])}\n  {cfgs}\n  MaxTicks = {max_ticks}\n"
-            f"  MaxEnvPerPos = {max_env}\n  AllowedViol = {{}}\n")
+            f"  MaxEnvPerPos = {max_env}\n  AllowedViol = {{}}\n  BootDeaths = TRUE\n")
 
 
 def env_alphabet(workers: int) -> List[List[Any]]:
@@ -68,6 +68,8 @@ def gen_random(seed: int, n: int, long: bool) -> List[Dict[str, Any]]:
                     if ev[0] == "sigint" and rng.random() < (0.8 if long else 0.5):
                         continue
                     tk[pos].append(ev)
+            if t >= 1 and rng.random() < (0.05 if long else 0.2):
+                tk["boot"] = sorted(rng.sample(range(w), rng.randint(1, w)))      # replacements started in this tick die while booting
             ticks.append(tk)
         out.append({"cfg": {"workers": w, "max_fails": mf, "slow_stop": True}, "ticks": ticks + [{}, {}], "family": "pm_long" if long else "pm_random"})
     return out
